@@ -1,0 +1,8 @@
+//go:build !verif
+// +build !verif
+
+package concurrencylimiter
+
+func verifAt(point string, h *holder) {}
+
+func verifAtLimiter(point string, l *limiter) {}
